@@ -57,6 +57,10 @@ type c09Sys struct {
 // (a polynomial, a transformation) changed by the call; the history runner reports it.
 var c09ArgModified string
 
+// c09Aux carries the hash of a secondary output of a catalog operation (the other entries of a map of
+// outputs): the history runner compares the system's with the twin's.
+var c09Aux uint64
+
 func hashBigPoly(p bignum.Polynomial) uint64 {
 	h := uint64(len(p.Coeffs))*31 + uint64(p.Basis)
 	for _, c := range p.Coeffs {
@@ -641,6 +645,27 @@ func c09CKKS(ctx *core.RunCtx) *c09Scheme {
 		{name: "Conjugate", op1: []int{vNone}, deg: degOne, call: func(e any, a *rlwe.Ciphertext, b any, k int, o *rlwe.Ciphertext) error { return ev(e).Conjugate(a, o) }},
 		{name: "InnerSum", op1: []int{vNone}, ks: []int{1, 2}, needDeg1: true, deg: degOne, call: func(e any, a *rlwe.Ciphertext, b any, k int, o *rlwe.Ciphertext) error {
 			return ev(e).InnerSum(a, k, 4, o)
+		}},
+		{name: "RotateHoisted", op1: []int{vNone}, ks: []int{0, 1}, needDeg1: true, deg: degOne, call: func(e any, a *rlwe.Ciphertext, b any, k int, o *rlwe.Ciphertext) error {
+			// three rotations from one decomposition; the designated output receives the first (k = 0) or the last
+			// (k = 1) of them, the others go to new ciphertexts whose content is reported through c09Aux
+			rots := []int{1, 2, 3}
+			outs := map[int]*rlwe.Ciphertext{}
+			for _, r := range rots {
+				outs[r] = ckks.NewCiphertext(cp, 1, a.Level())
+			}
+			outs[rots[2*k]] = o
+			if err := ev(e).RotateHoisted(a, rots, outs); err != nil {
+				return err
+			}
+			h := uint64(7)
+			for _, r := range rots {
+				if outs[r] != o {
+					h = core.SplitMix64(h ^ canonHashCt(cp.Parameters, outs[r]))
+				}
+			}
+			c09Aux = h
+			return nil
 		}},
 		{name: "lintrans.Evaluate", op1: []int{vNone}, ks: []int{0, 1, 2, 3}, needDeg1: true, deg: degOne, call: func(e any, a *rlwe.Ciphertext, b any, k int, o *rlwe.Ciphertext) error {
 			return e.(*c09Sys).lt.Evaluate(a, cc.lts[k], o)
